@@ -511,8 +511,15 @@ def replay(path):
         for b in cfg['bins']:
             p = subprocess.run(f'{HARNESS}/target/{prof}/{b} | {DRIVER} {prof}', shell=True, input='\n'.join(reqs) + '\n',
                                stdout=subprocess.PIPE, text=True)
+            known = load_known()
             for l in p.stdout.splitlines():
                 if l.startswith('SPEC ') or l.startswith('DIFF '):
+                    if l.startswith('SPEC '):
+                        if cfg.get('spec_ignore') and re.search(cfg['spec_ignore'], l):
+                            continue
+                        hit = next((k for k in known if finding_matches(k, prop, l[5:].split(' => ')[0], prof)), None)
+                        if hit:
+                            print(f"KNOWN-FINDING: property={prop} id={hit['id']} {l[5:200]}"); continue
                     print(f'[{prof}/{b}] {l}'); bad += 1
             if cfg.get('oracle') and prof == 'rel':
                 # the real-valued clauses are judged by the search oracle on the implementation's answers (known findings are reported, not counted)
